@@ -354,3 +354,59 @@ harness! { fn c04_iter_destroy_2() unwind(10) { tok_iter_destroy::<2>() } }
 harness! { fn c04_history() unwind(10) { tok_history() } }
 harness! { fn c04_clone_from_3() unwind(10) { tok_clone_from::<3>() } }
 harness! { fn c04_clone_from_2() unwind(10) { tok_clone_from::<2>() } }
+
+/// A component type WITHOUT drop glue whose `Clone` is not a bit copy (a handle into a pool, a
+/// `ManuallyDrop<Box<_>>`, a type that registers its clones): cloning a world calls `Clone::clone`
+/// exactly once per live value — "has no destructor" does not mean "may be block-copied".
+pub mod nd {
+    use crate::sym;
+    use crate::{cover, harness};
+    use gecs::prelude::*;
+
+    pub static mut NCLONES: u8 = 0;
+    pub struct Nd(pub u8);
+    impl Clone for Nd {
+        fn clone(&self) -> Self {
+            unsafe { NCLONES += 1 };
+            Nd(self.0 + 100)
+        }
+    }
+    #[derive(Clone, Copy)]
+    pub struct Pl(pub u8);
+
+    ecs_world! {
+        ecs_name!(WND);
+        ecs_archetype!(ArchNd, Nd, Pl);
+        ecs_archetype!(ArchPn, Pl, Nd);
+    }
+
+    pub fn clone_no_drop_glue() {
+        unsafe { NCLONES = 0 };
+        let n0 = sym::any_usize();
+        let n1 = sym::any_usize();
+        sym::assume(n0 <= 2 && n1 <= 2);
+        let mut world = WND::with_capacity(WNDCapacity { arch_nd: 2, arch_pn: 2 });
+        let mut i = 0;
+        while i < 2 {
+            if i < n0 { world.create::<ArchNd>((Nd(i as u8), Pl(7))); }
+            if i < n1 { world.create::<ArchPn>((Pl(9), Nd(10 + i as u8))); }
+            i += 1;
+        }
+        let mut c = world.clone();
+        unsafe { assert!(NCLONES as usize == n0 + n1, "clone did not call Clone::clone exactly once per live component of a type without drop glue") };
+        let mut seen = 0;
+        ecs_iter!(c, |v: &Nd, p: &Pl| {
+            assert!(v.0 >= 100 && (p.0 == 7 || p.0 == 9), "the clone holds a bit copy of the original's value instead of its clone");
+            seen += 1;
+        });
+        assert!(seen == n0 + n1);
+        let mut orig = 0;
+        ecs_iter!(world, |v: &Nd| { assert!(v.0 < 100, "cloning changed the original"); orig += 1; });
+        assert!(orig == n0 + n1);
+        cover!(n0 == 2 && n1 == 1, "both archetypes populated");
+        std::mem::forget(world);
+        std::mem::forget(c);
+    }
+
+    harness! { fn c04_clone_no_drop_glue() unwind(5) { clone_no_drop_glue() } }
+}
